@@ -107,6 +107,8 @@ type Interp struct {
 	kinds    map[string]int
 	depth    int
 	exiting  string // exit path of the function whose deferred actions are running
+	// name of the builtin being executed (for input-shape bookkeeping)
+	curBuiltin string
 }
 
 func (it *Interp) step() {
@@ -328,6 +330,9 @@ func (it *Interp) readAll(fr *frame) []Value {
 	}
 	vs := in.items[in.pos:]
 	in.pos = len(in.items)
+	if in.isPipe {
+		it.shape(vs, true)
+	}
 	return vs
 }
 
